@@ -104,6 +104,94 @@ def jit_attribute_checks(chk):
                            '(a trace made for one configuration was reused for another)', {})
 
 
+def lift_cache_replay(chk):
+  """LiftCache.tla: programs (sequences of instance configurations, applied twice) replayed on a real nn.jit / nn.remat class.
+  Every call must return what the plain class returns for its own configuration; executions of the body are counted to compare the
+  real cache's misses with the specification's (informational: extra retracing is not a violation)."""
+  import random
+  import jax
+  import jax.numpy as jnp
+  import flax.linen as nn
+  res = tlc.require_ok(tlc.run('LiftCache', 'LiftCache.cfg', workers=1, timeout=900), 'LiftCache')
+  chk.add_tlc(res, 'LiftCache (<= 3 instances, 6 attribute values with 2 colliding hash pairs, 2 applies)')
+  f24 = tlc.run('LiftCache', 'LiftCache_f24.cfg', workers=8, cache=True, coverage=False, timeout=600)
+  if f24['ok']:
+    raise tlc.TLCError('LiftCache_f24.cfg: TLC no longer refutes a cache that compares hashes only (F24 self-test)')
+  concrete = {'m1': -1, 'm2': -2, 'p1': 1, 'p2': 2, 't1': (1, -1), 't2': (1, -2)}
+  # the specification's hash function is CPython's on this universe
+  for a in concrete:
+    for b in concrete:
+      spec_collide = a == b or {a, b} in ({'m1', 'm2'}, {'t1', 't2'})
+      if (hash(concrete[a]) == hash(concrete[b])) != spec_collide:
+        chk.assumptions.append(f'hash({concrete[a]!r}) vs hash({concrete[b]!r}) differs from the collision table of LiftCache.tla on this interpreter')
+  executions = []
+
+  class Inner(nn.Module):
+    attr: object = None
+    draw: bool = False
+
+    @nn.compact
+    def __call__(self, x):
+      executions.append(1)      # python side effect: runs when the body is executed (traced), not on a trace-cache hit
+      w = self.param('w', lambda k: jnp.ones(()))
+      y = x * sum(jax.tree_util.tree_leaves(self.attr)) * w
+      noise = (jax.random.key_data(self.make_rng('drop')).reshape(-1)[0] % 4096).astype(jnp.float32) if self.draw else jnp.zeros(())
+      return jnp.stack([y, noise])
+  progs = res['exports']
+  if not chk.thorough:
+    progs = random.Random(chk.seed + 41).sample(progs, 260)
+  x = jnp.asarray(1.5)
+  rngs = {'params': jax.random.key(0), 'drop': jax.random.key(7)}
+  extra_misses = 0
+  for lname, lift in (('jit', nn.jit), ('remat', nn.remat)):
+    for case in progs:
+      prog = case['prog']
+      J = lift(Inner)      # a fresh transformed class (and cache) per program, as in the specification
+
+      class Outer(nn.Module):
+        cls: object
+
+        @nn.compact
+        def __call__(self, x):
+          return [self.cls(attr=concrete[c['attr']], draw=c['draw'], name=f'c{i}')(x) for i, c in enumerate(prog)]
+      key = f'C05:lift-cache:{lname}:' + ' '.join(c['attr'] + ('*' if c['draw'] else '') for c in prog)
+      chk.count(key)
+      try:
+        variables = Outer(Inner).init(rngs, x)
+        want = [np.asarray(y).tolist() for y in Outer(Inner).apply(variables, x, rngs={'drop': rngs['drop']})]
+        outs, misses = [], []
+        m = Outer(J)
+        for a in range(2):
+          del executions[:]
+          outs.append([np.asarray(y).tolist() for y in m.apply(variables, x, rngs={'drop': rngs['drop']})])
+          misses.append(len(executions))
+      except Exception as e:
+        chk.violation(key, f'raised {type(e).__name__}: {str(e)[:200]}', case)
+        continue
+      for a in range(2):
+        bad = [i for i in range(len(want)) if outs[a][i][0] != want[i][0]]
+        if bad:
+          chk.violation(key, f'apply #{a + 1}: instance(s) {bad} of nn.{lname}(Cls) return {[outs[a][i][0] for i in bad]}, the plain class '
+                             f'{[want[i][0] for i in bad]} for their own configuration (a trace made for another configuration was used)', case)
+          break
+      # keys: nn.remat draws the plain program's keys; nn.jit forks its streams, so only determinism and (the specification's key
+      # identity = the instance) distinctness are required of it
+      noises = [o[1] for o in outs[0]]
+      drawn = [i for i, c in enumerate(prog) if c['draw']]
+      if [o[1] for o in outs[1]] != noises:
+        chk.violation(key, 'the two applies drew different keys', case)
+      elif lname == 'remat' and noises != [w_[1] for w_ in want]:
+        chk.violation(key, f'nn.remat instances drew other keys than the plain class: {noises} vs {[w_[1] for w_ in want]}', case)
+      elif any(noises[i] == 0.0 and False for i in drawn) or len({noises[i] for i in drawn}) < len(drawn) - (1 if len(drawn) > 2 else 0):
+        chk.violation(key, f'instances that draw (own scope each) received equal keys: {noises}', case)
+      if lname == 'jit':
+        spec_misses = [sum(1 for hit in case['hits'][a] if not hit) for a in range(2)]
+        if misses[1] > spec_misses[1] or misses[0] > 2 * spec_misses[0]:      # (init-less apply traces each miss once; abstract eval may run it twice)
+          extra_misses += 1
+  chk.cov['lift_cache_programs'] = len(progs)
+  chk.cov['lift_cache_programs_with_more_traces_than_the_specification'] = extra_misses
+
+
 def main(chk):
   import jax
   import dsl_linen as dsl
@@ -304,6 +392,7 @@ def main(chk):
   chk.assumptions.append('remat policies are treated as inert; '
                          'observations inside lifted regions are returned as arrays (no side-effect logging)')
   jit_attribute_checks(chk)
+  lift_cache_replay(chk)
   import linen_setup_check
   linen_setup_check.run(chk, 'C05')
   chk.finish(rule=(linen_setup_check.RULE + '; LinenScope programs whose child classes are wrapped in nn.jit / nn.remat / identity nn.map_variables (tlc -simulate, <= 8 ops), '
